@@ -134,6 +134,13 @@ class HistContainer(IndexedContainer):
             self._processed_entries += list(_overflow_entries)
 
         self._unprocessed_entries = []
+        self._on_data_change()
+
+    def _on_data_change(self):
+        """reset the error references and the total error cache after the bin contents have changed"""
+        for _err_dict in self._error_dicts.values():
+            _err_dict["err"].reference = self._get_error_reference
+        self._clear_total_error_cache()
 
     def _get_error_reference(self):
         if self._unprocessed_entries:  # process outstanding entries
@@ -240,6 +247,7 @@ class HistContainer(IndexedContainer):
             self._unprocessed_entries += list(entries)
         except TypeError:
             self._unprocessed_entries.append(entries)
+        self._clear_total_error_cache()
 
     def rebin(self, new_bin_edges):
         """
@@ -260,6 +268,7 @@ class HistContainer(IndexedContainer):
         # mark all entries as unprocessed
         self._unprocessed_entries += self._processed_entries
         self._processed_entries = []
+        self._on_data_change()
 
     def set_bins(self, bin_heights, underflow=0, overflow=0):
         """
@@ -281,3 +290,4 @@ class HistContainer(IndexedContainer):
         self._data = _new_data
         self._processed_entries = []
         self._unprocessed_entries = []
+        self._on_data_change()
